@@ -152,6 +152,17 @@ static void check_node(struct vnode* v) {
 
 /* ---------- construction ---------- */
 
+/* element type whose size (12 bytes) is not a multiple of the word size: containers pad their slots, and every walk
+   over them (forwards, backwards, through views) has to use the padded stride */
+struct Odd12 { int32_t v; char pad[8]; };
+static int64_t Odd12_C_Int(var self) { struct Odd12* o = self; return o->pad[0] == 'o' && o->pad[7] == 'd' ? (int64_t)o->v : INT64_MIN + 12; }
+static var Odd12 = Cello(Odd12, Instance(C_Int, Odd12_C_Int));
+static var odd12_init(char* buf, int64_t x) {
+  struct Odd12* o = header_init(buf, Odd12, AllocStack);
+  memset(o, 0, sizeof *o); o->v = (int32_t)x; o->pad[0] = 'o'; o->pad[7] = 'd';
+  return o;
+}
+
 static int64_t map_key_base = INT64_MIN;   /* fixed grids: first key of a map leaf (INT64_MIN: random) */
 static int leaf_histories;      /* generated cases only: the fixed grids need exact lengths */
 
@@ -159,9 +170,12 @@ static int add_leaf(vh_rng* r, int kind, int n, var* keep) {
   struct vnode* v = &V[nv];
   memset(v, 0, offsetof(struct vnode, nref));
   v->kind = kind; v->ordered = 1; v->has_len = 1; v->has_get = 1; v->depth = 0;
+  int odd = leaf_histories && (kind == V_ARRAY || kind == V_LIST) && vh_chance(r, 35);
+  char ob[sizeof(struct Header) + 16];
+  if (odd) { vh_count("leaves_with_12_byte_elements"); }
   switch (kind) {
-    case V_ARRAY: v->obj = new(Array, Int); break;
-    case V_LIST: v->obj = new(List, Int); break;
+    case V_ARRAY: v->obj = odd ? (var)new(Array, Odd12) : (var)new(Array, Int); break;
+    case V_LIST: v->obj = odd ? (var)new(List, Odd12) : (var)new(List, Int); break;
     case V_TUPLE: v->obj = new(Tuple); break;
     case V_TABLE: v->obj = new(Table, Int, Int); v->has_get = 0; break;
     case V_TREE: v->obj = new(Tree, Int, Int); v->has_get = 0; break;
@@ -182,7 +196,7 @@ static int add_leaf(vh_rng* r, int kind, int n, var* keep) {
     v->ref[i].arity = 0; v->ref[i].v[0] = x;
     if (kind == V_TUPLE) { push(v->obj, new(Int, $I(x))); }
     else if (kind == V_TABLE || kind == V_TREE) { set(v->obj, $I(x), $I(i)); }
-    else { push(v->obj, $I(x)); }
+    else { push(v->obj, odd ? odd12_init(ob, x) : (var)$I(x)); }
   }
   if (leaf_histories && (kind == V_TABLE || kind == V_TREE) && n > 1 && vh_chance(r, 60)) {
     /* a history of removals and re-insertions (for a Tree: removal repairs and rotations; for a Table: back-shifts) */
@@ -205,7 +219,7 @@ static int add_leaf(vh_rng* r, int kind, int n, var* keep) {
     int steps = 1 + (int)vh_below(r, 6);
     for (int k = 0; k < steps; k++) {
       int64_t x = vh_range(r, 40, 60);
-      var xo = kind == V_TUPLE ? (var)new(Int, $I(x)) : (var)$I(x);
+      var xo = kind == V_TUPLE ? (var)new(Int, $I(x)) : odd ? odd12_init(ob, x) : (var)$I(x);
       int m = v->nref;
       switch (vh_below(r, 6)) {
         case 0: if (m > 0) { pop_at(v->obj, $I(0)); memmove(&v->ref[0], &v->ref[1], sizeof(struct item) * (size_t)(m - 1)); v->nref--; } break;
